@@ -48,6 +48,8 @@ CLAIMED = {
   "C13": C("exploration", "3 C13", "deterministic simulation: aborted transactions at every position + abort racing commit under seeded schedules",
       "Sequential: directory fingerprint (cas/, staging/, WAL bytes, snapshot) and reads identical before/after every abandoned transaction, also after restart. Concurrent: a transaction abandoned at a scheduler-chosen point while others commit/remove; the final state must be what the committing tasks alone produce.",
       SEQ_NOTE + " Concurrent part: " + CONC_NOTE, "casim-seq"),
+  "C14": C("fault_enumeration", "3 C14", "deterministic simulation: one failed mutating libc call per run, per-key {old,new} uncertainty model, later operations + clean reopen",
+      "A dry run counts the fallible mutating calls of the history (open/create, write, fsync/fdatasync, rename, unlink, mkdir, ftruncate); each selected one is failed once with EIO/ENOSPC/EMFILE/EACCES without side effect; the faulted operation may fail or succeed but not panic; 2-6 later operations must succeed, a clean reopen must succeed, and every key must show a possible and readable value (narrow uncertainty: only keys of the failed operation, collapsed only by later operations that logged a record for the key)."),
   "C15": C("exploration", "3 C15", "deterministic simulation: seeded schedules with deadlock/hang detection by the controlled scheduler",
       "Programs with the full call mix incl. explicit and roll-over checkpoints and clean-up; every execution must end with all tasks finished (no runnable task = deadlock; > 30000 steps = hang); the writer-preferring RwLock shim makes reader-recursion deadlocks reachable; the held->acquired lock graph is reported.",
       CONC_NOTE, "casim-conc"),
@@ -62,7 +64,6 @@ CLAIMED = {
 }
 
 NOT_YET = {
-  "C14": "not claimed yet: the F-err mode (one failed mutating call, per-key uncertainty model) is still under construction in this round; it is a simulation target (DESIGN.md 3 C14)",
   "C16": "not claimed yet: the F-forge mode (forged snapshots / WAL records between two opens) is still under construction in this round; the pure round-trip law over all values is not a simulation target (DESIGN.md 7)",
 }
 
@@ -102,7 +103,7 @@ def main():
         ],
         "checks": checks,
         "not_applicable": na,
-        "notes": "All checks: exit 0 held / 1 VIOLATION / 2 harness error. VERIF_SEED and VERIF_TIER honoured. Known findings and fixed defects: known_findings.json. Three genuine defects were repaired in /repo with fix: commits (8633b4a, 2b3c92e, b68755c).",
+        "notes": "All checks: exit 0 held / 1 VIOLATION / 2 harness error. VERIF_SEED and VERIF_TIER honoured. Known findings and fixed defects: known_findings.json. Four genuine defects were repaired in /repo with fix: commits (8633b4a, 2b3c92e, b68755c, da69cee).",
     }
     json.dump(m, open(os.path.join(VERIF, "MANIFEST.json"), "w"), indent=1)
 
